@@ -10,6 +10,7 @@ returned `e`; `.destroyed t row` = `t` was removed by ANY path — all four key 
 both levels, and each removal of `ecs_iter_destroy!` go through `destroyEnt`/`destroyDirect`;
 a refused or failed operation contributes no label).  Lemmas/WorldOps.lean shows every API
 operation changes each archetype by such a path.
+World-history forms: Props/Histories.lean (C17_all_histories, C17_since_last_clear); the labelled lift is Lemmas/WorldLift.lean.
 -/
 import Gecs.Lemmas.EventLogs
 import Gecs.Lemmas.Events
